@@ -580,7 +580,7 @@ def check_writers(model, R, P, ops):
     R.rule(P + '.WRITERS', 'the only writers of Tensor._grad are Tensor.__init__, the grad setter, Tensor.backward, Tensor.zero_ (via the setter) and the += of op closures on their own children', floor=5)
     allowed = {TENSOR + '.__init__', TENSOR + '.grad.setter', TENSOR + '.backward', TENSOR + '.zero_'}
     closures = {cl.qualname for op in ops for cl in op.closures}
-    for fn in model.funcs.values():
+    for fn in [f_ for f_ in model.funcs.values() if not f_.inlined_everywhere]:
         for n in body_walk(fn.node):
             tg = []
             if isinstance(n, ast.Assign):
